@@ -23,6 +23,8 @@ theorem decode_encode (m : Msg) (h : WF m) (rest : Bytes) :
   simp only [decode, encodeBytes, size, h37]
   rfl
 
+theorem wfBool_iff (m : Msg) : wfBool m = true ↔ WF m := At4X37.wfBool_iff m.toStatus
+
 /-- the control decoder never yields the request form: an empty message is a `DecodeError` -/
 theorem decode_empty (buffer : Bytes) : decode buffer 0 = .error .decodeError := by
   simp [decode, X37.decode]
